@@ -152,9 +152,10 @@ def rq_api(case, ctx):
 
 
 def _spell(s):
+    conv = getattr(np, s["np"]) if s.get("np") else int          # the index as a NumPy scalar of that dtype (it fits)
     if s["kind"] == "scalar":
-        return s["a"][0]
-    return slice(s["a"][0] if s["a"] else None, s["b"][0] if s["b"] else None)
+        return conv(s["a"][0])
+    return slice(conv(s["a"][0]) if s["a"] else None, conv(s["b"][0]) if s["b"] else None)
 
 
 @driver("rq.slice")
